@@ -11,17 +11,17 @@
 (***************************************************************************)
 EXTENDS Integers, Sequences, TLC
 
-B == 10000
+BASE == 10000
 
 RECURSIVE Trim(_)
 Trim(a) == IF a # <<>> /\ a[Len(a)] = 0 THEN Trim(SubSeq(a, 1, Len(a)-1)) ELSE a
 
 RECURSIVE FromNat(_)
-FromNat(n) == IF n = 0 THEN <<>> ELSE <<n % B>> \o FromNat(n \div B)
+FromNat(n) == IF n = 0 THEN <<>> ELSE <<n % BASE>> \o FromNat(n \div BASE)
 
 \* value of a natural that is known to fit into a TLC integer
 RECURSIVE ToNat(_)
-ToNat(a) == IF a = <<>> THEN 0 ELSE Head(a) + B * ToNat(Tail(a))
+ToNat(a) == IF a = <<>> THEN 0 ELSE Head(a) + BASE * ToNat(Tail(a))
 
 RECURSIVE AddC(_,_,_)
 AddC(a, b, c) ==
@@ -29,14 +29,14 @@ AddC(a, b, c) ==
   ELSE LET x == IF a = <<>> THEN 0 ELSE Head(a)
            y == IF b = <<>> THEN 0 ELSE Head(b)
            s == x + y + c
-       IN <<s % B>> \o AddC(IF a = <<>> THEN a ELSE Tail(a),
-                            IF b = <<>> THEN b ELSE Tail(b), s \div B)
+       IN <<s % BASE>> \o AddC(IF a = <<>> THEN a ELSE Tail(a),
+                            IF b = <<>> THEN b ELSE Tail(b), s \div BASE)
 Add(a, b) == AddC(a, b, 0)
 
 \* a * k for a TLC integer 0 <= k <= 200000
 RECURSIVE MulSC(_,_,_)
 MulSC(a, k, c) == IF a = <<>> THEN FromNat(c)
-                  ELSE LET s == Head(a)*k + c IN <<s % B>> \o MulSC(Tail(a), k, s \div B)
+                  ELSE LET s == Head(a)*k + c IN <<s % BASE>> \o MulSC(Tail(a), k, s \div BASE)
 MulS(a, k) == IF k = 0 \/ a = <<>> THEN <<>> ELSE MulSC(a, k, 0)
 
 RECURSIVE Mul(_,_)
@@ -56,7 +56,7 @@ SubB(a, b, br) ==
   IF a = <<>> THEN <<>>
   ELSE LET y == IF b = <<>> THEN 0 ELSE Head(b)
            d == Head(a) - y - br
-       IN <<IF d < 0 THEN d + B ELSE d>> \o
+       IN <<IF d < 0 THEN d + BASE ELSE d>> \o
           SubB(Tail(a), IF b = <<>> THEN b ELSE Tail(b), IF d < 0 THEN 1 ELSE 0)
 Sub(a, b) == Trim(SubB(a, b, 0))
 AbsDiff(a, b) == IF Cmp(a, b) >= 0 THEN Sub(a, b) ELSE Sub(b, a)
@@ -65,7 +65,7 @@ AbsDiff(a, b) == IF Cmp(a, b) >= 0 THEN Sub(a, b) ELSE Sub(b, a)
 DivS(a, k) ==
   LET RECURSIVE Go(_,_)
       Go(i, rem) == IF i = 0 THEN <<<<>>, rem>>
-                    ELSE LET cur == rem * B + a[i]
+                    ELSE LET cur == rem * BASE + a[i]
                              rest == Go(i-1, cur % k)
                          IN <<Append(rest[1], cur \div k), rest[2]>>
       r == Go(Len(a), 0)
